@@ -1165,6 +1165,9 @@ class Interp:
                 return H.write_field(self, base, name, v)
             raise Unsupported(f'store to {base.schema.name}.{name} (not in schema)')
         if isinstance(base, Obj):
+            om = self.p.engine.models.get(('setattr', id(base), name)) or self.p.engine.models.get(('setattr', base.cls, name))
+            if om is not None:
+                return om.fn(self, [base, name, v], {})
             # property setter?
             c = base.cls
             if isinstance(c, type):
